@@ -19,7 +19,7 @@ RULE = (
 ASSUMPTIONS = ["M-dataformat table (cpverif/models/dataformatmodel.py); literal blank/digit item delimiters, non-text codecs, blank thousands separator and delimiter==escape are unjudged"]
 
 KINDS = ["delimited", "fixed", "excel", "ods"]
-CODEPOINTS = list(range(33, 127)) + [9, 10, 11, 12, 13, 32, 0xE4, 0x20AC, 0x2028]
+CODEPOINTS = list(range(33, 127)) + [9, 10, 11, 12, 13, 32, 0xE4, 0x20AC, 0x2028, 0xB2, 0xB9, 0x663, 0xFF15, 0x2460, 0xA6, 0xA7]
 SYMBOL_OF = {9: "tab", 10: "lf", 11: "vt", 12: "ff", 13: "cr"}
 ENCODINGS = ["utf-8", "UTF-8", "utf8", "U8", "ascii", "US-ASCII", "latin-1", "latin1", "iso-8859-1", "ISO8859-15", "cp1252", "CP1252", "windows-1252",
              "cp850", "cp437", "cp1250", "cp1251", "utf-16", "UTF-16LE", "utf-16-be", "utf-32", "utf_8_sig", "mac_roman", "macroman", "koi8-r",
@@ -88,6 +88,10 @@ def read_attribute(fmt, prop):
     return value
 
 
+FIRST_OUTCOME = {}
+REPEAT = []
+
+
 def judge_set(ctx, kind, prop, value, via):
     """One set_property call (or one CID with that property row) judged against M-dataformat."""
     from cutplace import data, errors, interface
@@ -115,6 +119,16 @@ def judge_set(ctx, kind, prop, value, via):
         observed = ("refuse", error)
     except Exception as error:
         observed = ("crash", error)
+    if via == "set_property":
+        # the verdict on (format, property, value) must be the same every time it is asked for in this process
+        key = (kind, prop, value)
+        summary = (observed[0], core.jsonable(read_attribute(fmt, prop)) if observed[0] == "accept" else None)
+        first = FIRST_OUTCOME.setdefault(key, summary)
+        if first != summary:
+            ctx.case(dict(case, repeated=True), True)
+            ctx.violation("C11:verdict-changes-on-repetition:%s" % prop, case, "the same value for the same property and format got another verdict the second time",
+                          expected=first, observed=summary)
+            return
     if verdict[0] == M.UNJUDGED:
         if observed[0] == "crash":
             ctx.count("crash-on-unjudged-value(C10)")
@@ -221,6 +235,7 @@ def run(ctx):
                 if not ctx.mine(index):
                     continue
                 judge_set(ctx, kind, prop, value, "set_property")
+                REPEAT.append((kind, prop, value))
                 if index % 3 == 0 or prop != "item_delimiter":
                     judge_set(ctx, kind, prop, value, "cid" if index % 2 else "cid-upper")
     # consistency rules
@@ -248,6 +263,10 @@ def run(ctx):
                     continue
                 judge_consistency(ctx, {"kind": kind, "item_delimiter": ",", "quote_character": '"', "escape_character": '"', "line_delimiter": ld,
                                         "decimal_separator": dec, "thousands_separator": ths})
+    # second round: every value once more, in reverse order, after everything else has been asked for
+    for kind, prop, value in reversed(REPEAT):
+        judge_set(ctx, kind, prop, value, "set_property")
+        ctx.count("set.repeated")
     # contradictions between ONE explicit setting and the other property's default
     for rows, verdict in (
         ([["D", "Format", "Delimited"], ["D", "Thousands separator", "."]], M.REFUSE),
